@@ -103,7 +103,7 @@ Proof. exact elites_are_written_rows. Qed.
 
 (** the enumeration is not empty: entry points, arities, variants and layout vectors exist (5^4 vectors for add) *)
 Example C12_domain_nonempty :
-  length all_eps = 48 /\ In 4 (arities ArchiveAdd) /\ 1 < n_variants ArchiveAdd /\ length (layout_vectors 4) = 625.
+  length all_eps = 49 /\ In 4 (arities ArchiveAdd) /\ 1 < n_variants ArchiveAdd /\ length (layout_vectors 4) = 625.
 Proof. vm_compute. repeat split; auto. Qed.
 
 (** a concrete run: ArchiveAdd with an exact-dtype ndarray, a view, a non-contiguous array and a python list really
